@@ -129,7 +129,7 @@ def run(chk):
     streams = [dict(n=300, lv=4, ip=-1, content=4), dict(n=200, lv=3, ip=37, content=2),
                dict(n=2100, lv=4, ip=-1, content=4, w=64, h=64)]     # > 2048: every circular queue wraps
     if chk.tier == "thorough":
-        streams += [dict(n=2200, lv=4, ip=-1, content=4), dict(n=2600, lv=5, ip=255, content=1), dict(n=5000, lv=3, ip=-1, content=2)]
+        streams += [dict(n=2200, lv=4, ip=-1, content=4), dict(n=2600, lv=4, ip=255, content=1), dict(n=5000, lv=3, ip=-1, content=2)]
 
     def one(st):
         a = {"w": st.get("w", 128), "h": st.get("h", 64), "n": st["n"], "cfg.enc_mode": 8, "cfg.hierarchical_levels": st["lv"], "cfg.intra_period_length": st["ip"],
